@@ -437,6 +437,10 @@ class Executor:
             self.seq_extend(cur, rhs, st)
             return
         val = self.binop(st.op, cur, rhs, st)
+        if isinstance(cur, Seq) and cur.kind == "array" and isinstance(val, Seq):
+            # numpy: `a op= b` works IN PLACE: the array object (and every alias / view holder of it) sees the new contents
+            cur.items, cur.length, cur.arr = (list(val.items) if val.items is not None else None), val.length, val.arr
+            return
         self.assign(st.target, val, env)
 
     def s_Return(self, st, env):
